@@ -7,8 +7,9 @@ for id in $ids; do
   P=$(python3 -c "import json; print(json.load(open('seeded/$id/meta.json'))['property'])")
   if ! git -C /repo apply --check /verif/seeded/$id/patch.diff 2>/dev/null; then echo "$id $P PATCH-DOES-NOT-APPLY"; continue; fi
   git -C /repo apply /verif/seeded/$id/patch.diff
-  out=$(VERIF_EVIDENCE_DIR=/tmp/seed-evidence ./check $P 2>/dev/null)
+  out=$(VERIF_EVIDENCE_DIR=/tmp/seed-evidence ./check $P 2>&1); rc=$?
   git -C /repo checkout -- .
+  if [ $rc -gt 1 ] || echo "$out" | grep -q "^Traceback\|^ERROR"; then echo "$id $P CHECK-CRASHED (rc=$rc)"; continue; fi
   if echo "$out" | grep "^VIOLATION" | grep -qv "no-failing-input-found"; then echo "$id $P caught-with-input"
   elif echo "$out" | grep -q "^VIOLATION"; then echo "$id $P caught-no-input"
   else echo "$id $P MISSED"; fi
